@@ -106,7 +106,9 @@ Definition push_prog (d : N) (c : list N) (man : bool) : list act :=
   map (fun x => TWrite (AChunk x)) c ++
   (if H c =? d then TPublishBlob d :: (if man then TTagMem d None :: save_prog else [])
    else [TDropTemp]).
-Definition tag_prog (d r : N) : list act := TTagMem d (Some r) :: save_prog.
+(* Store.tag makes two resolver updates, by digest and then by name: a snapshot taken in between
+   has the digest-only entry (observed by the model-compared stream of killed batches) *)
+Definition tag_prog (d r : N) : list act := TTagMem d None :: TTagMem d (Some r) :: save_prog.
 Definition untag_prog (r : N) : list act := TUntagMem r :: save_prog.
 
 Inductive ccall := CPush (d : N) (c : list N) (man : bool) | CTag (d r : N) | CUntag (r : N) | CSaveIndex.
